@@ -4,7 +4,10 @@ import (
 	"bytes"
 	"encoding/json"
 	"fmt"
+	"github.com/zen-eth/shisui/verifhook"
 	"os"
+	"strings"
+	"sync/atomic"
 	"time"
 
 	"github.com/zen-eth/shisui/portalwire"
@@ -47,7 +50,36 @@ func e2eRun(r *mc.Report, c e2eCase, finish func(digest string)) (digest string,
 		a := newMNode(w, mnodeOpts{keyIdx: 31, versions: c.VA, utpLimit: 5})
 		b := newMNode(w, mnodeOpts{keyIdx: 32, versions: c.VBs, utpLimit: 5})
 		swapped := false
+		// "late-accept": the goroutine in which the responder waits for the uTP connection is held at
+		// its AcceptWithCid call (an injected yield tagged with the callee) until Drop further
+		// datagrams have been delivered - the asker's SYN arrives before anybody accepts
+		var parked, released atomic.Bool
+		held := make(chan struct{})
+		after := 0
+		if c.Dev == "late-accept" {
+			verifhook.Set(func(label string) {
+				if strings.HasSuffix(label, ":AcceptWithCid") && !released.Load() {
+					parked.Store(true)
+					<-held
+				}
+			})
+			defer verifhook.Set(nil)
+			defer func() {
+				if !released.Swap(true) {
+					close(held)
+				}
+			}()
+		}
 		decide := func(idx int, d mdgram) pumpAction {
+			if c.Dev == "late-accept" {
+				if parked.Load() && !released.Load() {
+					if after++; after > c.Drop {
+						released.Store(true)
+						close(held)
+					}
+				}
+				return deliver
+			}
 			if c.Dev == "cut" {
 				if c.Drop >= 0 && idx >= c.Drop {
 					return drop // the link is dead from this datagram on
@@ -72,7 +104,7 @@ func e2eRun(r *mc.Report, c e2eCase, finish func(digest string)) (digest string,
 		share := shareVersion(c.VA, c.VBs)
 		site := fmt.Sprintf("%s:%v-%v", c.Op, c.VA, c.VBs)
 		if c.Drop >= 0 {
-			site = c.Op + ":one-datagram-" + map[string]string{"": "lost", "dup": "duplicated", "swap": "reordered", "cut": "and-all-later-ones-lost"}[c.Dev]
+			site = c.Op + ":one-datagram-" + map[string]string{"": "lost", "dup": "duplicated", "swap": "reordered", "cut": "and-all-later-ones-lost", "late-accept": "-no-loss-but-the-responder-accepts-late"}[c.Dev]
 		}
 		switch c.Op {
 		case "findcontent":
@@ -99,7 +131,7 @@ func e2eRun(r *mc.Report, c e2eCase, finish func(digest string)) (digest string,
 				viol("peer-ends-up-with-the-stored-bytes", site, fmt.Sprintf("asked for %d stored bytes, got %d other bytes (flag %d)", len(content), len(got), flag))
 			case err == nil && !isBytes:
 				viol("held-content-is-returned", site, fmt.Sprintf("the responder holds the content but the asker got %T", res))
-			case err != nil && share && (c.Drop < 0 || c.Dev == "dup"):
+			case err != nil && share && (c.Drop < 0 || c.Dev == "dup" || c.Dev == "late-accept"):
 				viol("transfer-succeeds-between-nodes-sharing-a-version", site, fmt.Sprintf("%d bytes, no datagram lost: %v", c.Size, err))
 			case err == nil && !share && c.Size > 1200:
 				viol("no-transfer-without-a-common-version", site, "a large transfer succeeded although the version sets are disjoint")
@@ -204,6 +236,10 @@ func e2eCasesFor(prop string, thorough bool) []e2eCase {
 				for _, k := range lossIdx(66) {
 					cs = append(cs, e2eCase{Prop: prop, Op: "findcontent", VA: v, VBs: v, Size: 5000, Drop: k, Dev: dev})
 				}
+			}
+			// nothing is lost, but the responder's accept is held while k datagrams are delivered
+			for _, k := range []int{1, 2, 3, 5, 8} {
+				cs = append(cs, e2eCase{Prop: prop, Op: "findcontent", VA: v, VBs: v, Size: 20_000, Drop: k, Dev: "late-accept"})
 			}
 			// the link dies for good at datagram k of a 20 kB transfer
 			for _, k := range lossIdx(96) {
